@@ -448,3 +448,61 @@ Fixpoint nrun (p : nparams) (s : nstate) (tr : list nlabel) : option nstate :=
   | [] => Some s
   | l :: tr' => match nstep p s l with Some s' => nrun p s' tr' | None => None end
   end.
+
+(* ---- join: replaying an observed run of the real StreamJoin / OuterJoin ---- *)
+
+(* k consecutive sends of producer d in one computation (a producer filling its channel) *)
+Definition nsend_many (p : nparams) (s : nstate) (d : side) (k : nat) : option nstate :=
+  let x := nget s d in
+  match p_pc x with
+  | PSend => if (p_sent x + k <=? np_n p d) && (length (p_ch x) + k <=? np_cap p) && negb (p_closed x)
+             then Some (nset s d (mkprod (p_sent x + k) PSend (p_ch x ++ repeat MData k) false)) else None
+  | _ => None
+  end.
+
+Inductive nmacro := NMany (d : side) (k : nat) | NOne (l : nlabel).
+
+Definition nexpand (ms : list nmacro) : list nlabel :=
+  flat_map (fun m => match m with NMany d k => repeat (NSend d) k | NOne l => [l] end) ms.
+
+Fixpoint nrun_macro (p : nparams) (s : nstate) (ms : list nmacro) : option nstate :=
+  match ms with
+  | [] => Some s
+  | NMany d k :: r => match nsend_many p s d k with Some s' => nrun_macro p s' r | None => None end
+  | NOne l :: r => match nstep p s l with Some s' => nrun_macro p s' r | None => None end
+  end.
+
+(* An in-process run of the real join node over two scripted sources.  The main loop's events are the ones
+   the verifJoinRecv hook reported, in order; the producers' sends are scheduled eagerly between them
+   (the observation does not order them) up to the number of sends each producer completed. *)
+Record c29j_case := mkc29j {
+  kj_nl : Z; kj_nr : Z; kj_errl : bool; kj_errr : bool; kj_cap : Z; kj_fail : option Z;
+  kj_trace : list nmacro;
+  kj_sentl : Z; kj_sentr : Z;      (* sends completed by each source when the run was observed *)
+  kj_returned : bool;              (* Run returned within the time limit *)
+  kj_blocked : bool                (* some source goroutine was still blocked on its send when Run returned *)
+}.
+Definition c29j_params (c : c29j_case) : nparams :=
+  mknparams (nn (kj_nl c)) (nn (kj_nr c)) (kj_errl c) (kj_errr c) (nn (kj_cap c))
+            (match kj_fail c with Some z => Some (nn z) | None => None end).
+
+Definition blocked_prod (p : nparams) (d : side) (x : nprod) : bool :=
+  match p_pc x with PSend => (p_sent x <? np_n p d) && (length (p_ch x) =? np_cap p) | _ => false end.
+
+(* tie: the observed events are a run of the LTS into a final state (Run returned) whose producers have
+   completed exactly the observed number of sends, and a producer is blocked on a full channel exactly when
+   the harness saw one blocked *)
+Definition c29j_tie (c : c29j_case) : bool :=
+  let p := c29j_params c in
+  (1 <=? np_cap p) &&
+  match nrun_macro p ninit (kj_trace c) with
+  | Some s => nfinalb s && (p_sent (n_l s) =? nn (kj_sentl c)) && (p_sent (n_r s) =? nn (kj_sentr c))
+              && Bool.eqb (blocked_prod p SL (n_l s) || blocked_prod p SR (n_r s)) (kj_blocked c)
+  | None => false
+  end.
+(* spec: the query is over: Run returned, whether or not a producer stays blocked *)
+Definition c29j_spec (c : c29j_case) : bool := kj_returned c.
+
+Inductive c29_any := AJson (c : c29_case) | AJoin (c : c29j_case).
+Definition c29_tie_any (a : c29_any) : bool := match a with AJson c => c29_tie c | AJoin c => c29j_tie c end.
+Definition c29_spec_any (a : c29_any) : bool := match a with AJson c => c29_spec c | AJoin c => c29j_spec c end.
